@@ -1,12 +1,18 @@
 import ZmqVerif.Lemmas.FQCons
+import ZmqVerif.Lemmas.WorldRecv
 /-!
 # C05 — receive delivers each peer's messages exactly once, whole and in order
 
 Fair-queue level (`Model.FairQueue`): the statements hold in **every reachable state**, i.e.
 after any finite interleaving of receiver sections (A/B/C), `insert`, `remove`, `arrive`,
 `close` — any number of peers, events landing inside the unlocked window included.
-"Whole" is C02 (a stream item is one complete decoder item); the socket-level `recv`
-filters are tied by the `world` correspondence.
+"Whole" is C02 (a stream item is one complete decoder item).
+
+Socket level (`Model.World`, the executable composition the `world` engine runs against the real
+sockets): `C05_world_*` relate one poll of `recv` — fair queue over framed readers over scripted
+pipes, then the socket type's filter — to the BYTE STREAMS of the socket's connections, for
+every socket type that reads through the fair queue, any number of connections, any bytes
+(valid, malformed, truncated), any state of the queue.
 -/
 namespace Zmq.C05
 open Zmq.FQ
@@ -15,19 +21,19 @@ open Zmq.FQ
 receiver is just about to return, or still queued in the stream — nothing is lost, nothing
 is invented, whatever the schedule. -/
 theorem C05_conservation (ops : List Op) (k : Nat) :
-    let s := ops.foldl step {}
+    let s := ops.foldl FQ.step {}
     deliveredOf s k ++ inflight s k ++ (s.peer k).q = s.hist k :=
   reachable_cons ops k
 
 /-- Per peer, what `recv` has returned is a prefix of what arrived: same items, same order,
 each at most once. -/
 theorem C05_prefix_order (ops : List Op) (k : Nat) :
-    deliveredOf (ops.foldl step {}) k <+: (ops.foldl step {}).hist k := by
+    deliveredOf (ops.foldl FQ.step {}) k <+: (ops.foldl FQ.step {}).hist k := by
   have := reachable_cons ops k
   exact ⟨_, by rw [List.append_assoc] at this; exact this⟩
 
-theorem C05_no_duplicates (ops : List Op) (k : Nat) (hd : ((ops.foldl step {}).hist k).Nodup) :
-    (deliveredOf (ops.foldl step {}) k).Nodup := by
+theorem C05_no_duplicates (ops : List Op) (k : Nat) (hd : ((ops.foldl FQ.step {}).hist k).Nodup) :
+    (deliveredOf (ops.foldl FQ.step {}) k).Nodup := by
   obtain ⟨t, ht⟩ := C05_prefix_order ops k
   rw [← ht] at hd
   exact (List.nodup_append.mp hd).1
@@ -35,7 +41,7 @@ theorem C05_no_duplicates (ops : List Op) (k : Nat) (hd : ((ops.foldl step {}).h
 /-- At most one stream is checked out of the map at any time, and it is the one the
 receiver is polling — so two messages can never be merged or one split across peers. -/
 theorem C05_unique_checkout (ops : List Op) (k j : Nat)
-    (hk : (ops.foldl step {}).reg k = .out) (hj : (ops.foldl step {}).reg j = .out) : k = j := by
+    (hk : (ops.foldl FQ.step {}).reg k = .out) (hj : (ops.foldl FQ.step {}).reg j = .out) : k = j := by
   have h := reachable_inv ops
   have a := (h.outPc k).mp hk
   have b := (h.outPc j).mp hj
@@ -47,6 +53,62 @@ peer 1 is being polled) delivers both items in per-peer order -/
 example :
     let ops : List Op := [.insert 1, .insert 2, .arrive 1 10, .pollStart, .recvStep, .arrive 2 20,
       .recvStep, .recvStep, .pollStart, .recvStep, .recvStep, .recvStep]
-    (ops.foldl step {}).out = [(1, 10), (2, 20)] := by decide
+    (ops.foldl FQ.step {}).out = [(1, 10), (2, 20)] := by decide
+
+/-! ### socket level: `recv` against the byte streams of the connections -/
+
+open Zmq.W in
+/-- **One `recv` poll, whole and in order.**  `c k` is what the poll took off connection `k`:
+by `Step`, `c k` is a PREFIX of the items the rest of `k`'s byte stream decodes to (`Rd.items`
+= C02's `run` on read buffer ++ bytes waiting), the connection carries on exactly behind it, a
+connection that is dropped had nothing complete left, and none appears from nowhere.  By
+`RecvPost`: all connections together gave up AT MOST ONE message; exactly one iff `recv`
+returns it — as the socket type presents it (`deliver`: identity prefixed for ROUTER, envelope
+split off for REP, unchanged otherwise) — or rejects it with one error (REP's envelope rule);
+`Pending` consumed no message.  Everything else taken is a command/greeting, which `recv`
+ignores.  Hence nothing is lost, duplicated, merged, split or reordered within a connection. -/
+theorem C05_world_recv (fuel : Nat) (w : World) (sid : Nat) (s : Socket) (hs : getSock w sid = some s)
+    (hfq : hasFq s.typ = true) (hpd : PD s.fqStreams) (w' : World) (o : POut)
+    (h : recvPoll fuel w sid = (w', o)) :
+    ∃ s' c, getSock w' sid = some s' ∧ s'.typ = s.typ ∧ PD s'.fqStreams ∧
+      Step w.pipes s.fqStreams w'.pipes s'.fqStreams c ∧ RecvPost s.typ c o :=
+  recvPoll_spec fuel w sid s hs hfq hpd w' o h
+
+open Zmq.W in
+/-- The framed reader underneath: an item is handed out iff it is the FIRST item of the rest of
+the connection's byte stream; `Pending`, end-of-stream and errors only when no complete item is
+left (a message cut short by a disconnect is never surfaced); no other pipe is touched. -/
+theorem C05_world_reader (fuel : Nat) (ps : Pipes) (rd : Rd) (who : RWaker)
+    (hf : (inbufOf ps rd.pipe).length < fuel) (r : ReadRes) (ps' : Pipes) (rd' : Rd)
+    (h : readerPoll fuel ps rd who = (r, ps', rd')) :
+    rd'.pipe = rd.pipe ∧ (∀ j, j ≠ rd.pipe → inbufOf ps' j = inbufOf ps j) ∧
+    (match (generalizing := false) r with
+     | .item i => rd.items ps = i :: rd'.items ps'
+     | .pending => rd.items ps = [] ∧ rd'.items ps' = []
+     | _ => rd.items ps = []) :=
+  readerPoll_spec fuel ps rd who hf r ps' rd' h
+
+open Zmq.W in
+/-- The fair queue over the readers: the item it returns is the next item of the connection it
+names, taken from that connection only — whatever else the call did (stale events, `Pending`
+streams, ended streams whose peers were forgotten) took nothing from anybody. -/
+theorem C05_world_fq (fuel : Nat) (ps : Pipes) (sid : Nat) (s : Socket) (hpd : PD s.fqStreams)
+    (r : FqRes) (ps' : Pipes) (s' : Socket) (h : fqPoll fuel ps sid s = (r, ps', s')) :
+    s'.typ = s.typ ∧ PD s'.fqStreams ∧ FqPost ps s.fqStreams r ps' s'.fqStreams :=
+  fqPoll_spec fuel ps sid s hpd r ps' s' h
+
+open Zmq.W in
+/-- non-vacuity: the hypotheses are met by a PULL socket with two connections on distinct pipes,
+and the relation `Step` is inhabited for it -/
+example :
+    let m : Streams := [([1], { pipe := 1, dec := Dec.framing }), ([2], { pipe := 2, dec := Dec.framing })]
+    hasFq SockType.pull = true ∧ PD m ∧ Step [] m [] m nilC := by
+  refine ⟨rfl, ?_, Step.refl _ _⟩
+  intro k j rd rd2 hk hj hne
+  simp only [ilookup] at hk hj
+  split at hk <;> split at hj <;> simp_all <;>
+  · first
+      | (obtain ⟨_, rfl⟩ := hj; subst hk; simp)
+      | (obtain ⟨_, rfl⟩ := hk; subst hj; simp)
 
 end Zmq.C05
